@@ -409,6 +409,14 @@ def check(run, prog, tier):
                             clears.add(b2.id)
                         else:
                             sets = True
+                # a file-local helper that does nothing to g but clear it counts as a clear at its call
+                for b2, i2, n2 in f.calls():
+                    h_ = prog.func(n2.get("fn")) if n2.get("fn") else None
+                    if h_ is None or not h_.static or h_.file != f.file:
+                        continue
+                    hs = [n3 for b3, i3, n3 in h_.nodes() if n3.get("k") == "Asg" and n3.get("op") == "=" and strip(n3["L"]).get("k") == "Ref" and strip(n3["L"]).get("n") == g and strip(n3["L"]).get("d") in ("global", "static")]
+                    if hs and all(zero(n3["R"]) for n3 in hs) and h_.reach_avoiding([h_.entry], lambda blk: blk.id == h_.exit, avoid_blocks={b3.id for b3, i3, n3 in h_.nodes() if n3 in hs}) is None:
+                        clears.add(b2.id)
                 ok = not sets and bool(clears) and (b.id in clears or f.reach_avoiding([f.entry], lambda blk: blk.id == f.exit, avoid_blocks=clears) is None)
                 run.ob("C20-e", "cleared:%s:%s" % (f.name, g), ok, "%s is set to 0 on every path behind %s(.., %s)" % (g, n.get("fn"), bulk[0]) if ok else
                        "%s() frees every uid record with %s(.., %s) at line %s and leaves `%s` pointing at one of them: after the next init in this process %s sees it non-null and works on freed memory" % (
